@@ -60,51 +60,9 @@ def auto_discharge(site):
     return None
 
 
-_PROV = {}
-
-
-def _sub_guard(site):
-    """`a - b` is preceded on every path by a comparison that implies b <= a (repo idioms: `if a >= 1 { a -= 1 }`,
-    `if len == 0 { return }; len - 1`, `if a < b { return }; a - b`)."""
-    fn, t = site["fn"], site["term"]
-    p = _PROV.get(fn.id)
-    if p is None:
-        p = _PROV[fn.id] = Prov(fn)
-    a, b = p.operand(t["ops"][0]), p.operand(t["ops"][1])
-    sa, sb = show(a), show(b)
-    for br, rel in lib.guards_of(fn, site["bb"], p):
-        if rel is None or rel[0] == "bool":
-            continue
-        l, r = show(rel[1]), show(rel[2])
-        if rel[0] in ("<=", "<") and l == sb and r == sa:
-            return "%s %s %s" % (l, rel[0], r)
-        if b[0] == "const" and b[2] == "1":
-            if rel[0] == "!=" and ((l == sa and rel[2][0] == "const" and rel[2][2] == "0") or (r == sa and rel[1][0] == "const" and rel[1][2] == "0")):
-                return "%s != 0" % sa
-            if rel[0] == "<" and rel[1][0] == "const" and rel[1][2] == "0" and r == sa:
-                return "0 < %s" % sa
-            if rel[0] == "<=" and rel[1][0] == "const" and rel[1][2] == "1" and r == sa:
-                return "1 <= %s" % sa
-    return None
-
-
-def check(ctx):
-    F = ctx.facts("prod")
-    ctx.clause("R-REACH panic census over entry-point-reachable code (Assert terminators, panic primitives, integer operator calls, own wrappers); "
-               "each site discharged by structure, by a reasoned table row with exact count, or by a known finding")
-    ctx.clause("R-MUST validation gates: rkyv check before deserialize; size limits before parse; verify before prepare; stream size check")
-    ctx.clause("R-REACH allocation census: sizes derive from in-memory lengths or constants")
-    ctx.clause("recursion census: call-graph cycles enumerated against a reasoned table")
-    ctx.clause("R-NOSRC unsafe: no user-written unsafe outside audited rows; overflow-checks enabled in the release profile")
-
-    reach, parent, roots, extra = census.reach_set(F)
-    ctx.analysed.setdefault("prod", {})["entry_points"] = [r.path for r in roots]
-    ctx.analysed["prod"]["callback_roots"] = len(extra)
-    ctx.analysed["prod"]["reachable_functions"] = len(reach)
-    ctx.floor("R-REACH", "reachable functions", len(reach), 3000)
-    table = load_table()
+def evaluate_sites(ctx, F, reach, parent, table):
+    """R-REACH panic census over `reach`: every site must be discharged structurally, by a table row (exact count) or be a finding."""
     rows = table["rows"]
-
     # wrapper call sites
     wrapper_ids = set()
     for w in WRAPPERS:
@@ -130,7 +88,6 @@ def check(ctx):
                 counters[sig] = n + 1
                 sites.append({"kind": "call", "what": c.path, "fn": fn, "bb": c.bb, "ex": c.ex, "loc": c.loc(), "term": c.term, "msg": None,
                               "generated_fn": gen, "generated_site": census.site_generated(c.ex), "key": "%s|%s#%d" % (fn.path, sig, n)})
-    ctx.floor("R-REACH", "panic-capable sites found", len(sites), 500)
     # group non-auto sites per (fn, kind, what)
     groups = {}
     n_auto = 0
@@ -179,6 +136,55 @@ def check(ctx):
     stale = [k for k in by_key if k not in used]
     ctx.notes.append("table rows without a live site (code moved or removed): %d" % len(stale))
 
+    return sites, n_auto
+
+
+_PROV = {}
+
+
+def _sub_guard(site):
+    """`a - b` is preceded on every path by a comparison that implies b <= a (repo idioms: `if a >= 1 { a -= 1 }`,
+    `if len == 0 { return }; len - 1`, `if a < b { return }; a - b`)."""
+    fn, t = site["fn"], site["term"]
+    p = _PROV.get(fn.id)
+    if p is None:
+        p = _PROV[fn.id] = Prov(fn)
+    a, b = p.operand(t["ops"][0]), p.operand(t["ops"][1])
+    sa, sb = show(a), show(b)
+    for br, rel in lib.guards_of(fn, site["bb"], p):
+        if rel is None or rel[0] == "bool":
+            continue
+        l, r = show(rel[1]), show(rel[2])
+        if rel[0] in ("<=", "<") and l == sb and r == sa:
+            return "%s %s %s" % (l, rel[0], r)
+        if b[0] == "const" and b[2] == "1":
+            if rel[0] == "!=" and ((l == sa and rel[2][0] == "const" and rel[2][2] == "0") or (r == sa and rel[1][0] == "const" and rel[1][2] == "0")):
+                return "%s != 0" % sa
+            if rel[0] == "<" and rel[1][0] == "const" and rel[1][2] == "0" and r == sa:
+                return "0 < %s" % sa
+            if rel[0] == "<=" and rel[1][0] == "const" and rel[1][2] == "1" and r == sa:
+                return "1 <= %s" % sa
+    return None
+
+
+def check(ctx):
+    F = ctx.facts("prod")
+    ctx.clause("R-REACH panic census over entry-point-reachable code (Assert terminators, panic primitives, integer operator calls, own wrappers); "
+               "each site discharged by structure, by a reasoned table row with exact count, or by a known finding")
+    ctx.clause("R-MUST validation gates: rkyv check before deserialize; size limits before parse; verify before prepare; stream size check")
+    ctx.clause("R-REACH allocation census: sizes derive from in-memory lengths or constants")
+    ctx.clause("recursion census: call-graph cycles enumerated against a reasoned table")
+    ctx.clause("R-NOSRC unsafe: no user-written unsafe outside audited rows; overflow-checks enabled in the release profile")
+
+    reach, parent, roots, extra = census.reach_set(F)
+    ctx.analysed.setdefault("prod", {})["entry_points"] = [r.path for r in roots]
+    ctx.analysed["prod"]["callback_roots"] = len(extra)
+    ctx.analysed["prod"]["reachable_functions"] = len(reach)
+    ctx.floor("R-REACH", "reachable functions", len(reach), 3000)
+    table = load_table()
+
+    sites, n_auto = evaluate_sites(ctx, F, reach, parent, table)
+    ctx.floor("R-REACH", "panic-capable sites found", len(sites), 500)
     # 2. gates
     fa = F.fn("air_interpreter_data::rkyv::from_aligned_slice")
     fp = Prov(fa)
